@@ -220,8 +220,8 @@ theorem C04_compat_partial_int (env : Env) (lo hi olo ohi : Option Int) (f g : F
 /-- **Compatibility is sound on `CompatOk`** (PgProofs/TypingCompat.lean), by mutual structural
 induction on the receiver: for every class environment with a transitive subclass relation, all
 specs `a`, `b` with `CompatOk a b` — `Any`, `Bool`, `Int` / `Float` ranges, `Str`, `Enum`, `List`,
-fixed and variable `Tuple`, schema-less `Dict`, `Object`, nested to any depth, any noneable /
-default flags — and every value.  `CompatOk` is the explicit decidable conjunction of the
+fixed and variable `Tuple`, schema-less `Dict`, `Dict` with a constant-key schema, `Object`, nested
+to any depth, any noneable / default flags — and every value.  `CompatOk` is the explicit decidable conjunction of the
 exclusions; each conjunct is forced by a finding (theorems `C04_compat_exclusion_*` below). -/
 theorem C04_compat_partial (env : Env) (ht : SubTrans env) (a b : Spec) (hok : CompatOk a b = true)
     (hc : isCompatible env a b = true) (v : Val) (hv : accepts env b v = true) :
@@ -283,13 +283,34 @@ theorem C04_compat_exclusion_any :
     CompatOk a b = false ∧ isCompatible env0 a b = true ∧
       accepts env0 b .none = true ∧ accepts env0 a .none = false := by decide
 
-/-- `Dict` with schema (F42) and `Union` receivers (F43) are outside `CompatOk`. -/
-theorem C04_compat_exclusion_F42_F43 :
-    CompatOk (.dict (some [.mk (.const "x") (.int none none F0)]) ⟨false, .dict [("x", .missing)], false⟩)
-      (.dict (some [.mk (.const "x") (.int none none ⟨false, .int 1, false⟩)]) ⟨false, .dict [("x", .int 1)], false⟩)
-      = false ∧
+/-- `Dict` with schema: a shared field of the other side must not carry a default (F42). -/
+theorem C04_compat_exclusion_F42 :
+    let a : Spec := .dict (some [.mk (.const "x") (.int none none F0)]) ⟨false, .dict [("x", .missing)], false⟩
+    let b : Spec := .dict (some [.mk (.const "x") (.int none none ⟨false, .int 1, false⟩)]) ⟨false, .dict [("x", .int 1)], false⟩
+    let b0 : Spec := .dict (some [.mk (.const "x") (.int (some 0) none F0)]) ⟨false, .dict [("x", .missing)], false⟩
+    CompatOk a b = false ∧ CompatOk a b0 = true ∧ isCompatible env0 a b = true ∧
+      accepts env0 b (.dict []) = true ∧ accepts env0 a (.dict []) = false := by decide
+
+/-- `Union` receivers (F43) are outside `CompatOk`. -/
+theorem C04_compat_exclusion_F43 :
     CompatOk (.union [.float none none F0, .int none (some 1) F0] F0) (.float none none F0) = false := by
   decide
+
+/-- Environment in which every regular expression matches every string. -/
+def envR : Env := ⟨fun a b => a == b, fun _ _ => true⟩
+
+/-- NEW (found while delimiting `CompatOk`; not covered by F09–F47; replayed on the real code):
+dynamic keys are dispatched to the *first* matching `StrKey` in declaration order
+(class_schema.py `Schema.resolve`), while `Schema.is_compatible` compares the fields key by key.
+`Dict([(StrKey('a.*'), Int()), (StrKey('.*b'), Str())])` is compatible with the same schema in the
+other order; the latter accepts `{'ab': 'x'}`, the former raises TypeError. -/
+theorem C04_compat_counterexample_keyorder : ¬ C04_compat_Full := by
+  intro h
+  have := h envR
+    (.dict (some [.mk (.strKey (some 0)) (.int none none F0), .mk (.strKey (some 1)) (.str none F0)]) ⟨false, .dict [], false⟩)
+    (.dict (some [.mk (.strKey (some 1)) (.str none F0), .mk (.strKey (some 0)) (.int none none F0)]) ⟨false, .dict [], false⟩)
+    (.dict [("ab", .str "x")]) (by rfl) (by rfl)
+  revert this; decide
 
 /-! ## 4. Extension only narrows -/
 
@@ -416,6 +437,13 @@ example : CompatOk (.enum [.int 1, .int 2, .int 3] F0) (.enum [.bool true, .int 
     isCompatible env0 (.enum [.int 1, .int 2, .int 3] F0) (.enum [.bool true, .int 2] F0) = true := by decide
 example : CompatOk (.tuple [.int none none F0] 1 none F0) (.tuple [.int (some 0) none F0, .int (some 5) (some 6) F0] 2 (some 2) F0) = true ∧
     isCompatible env0 (.tuple [.int none none F0] 1 none F0) (.tuple [.int (some 0) none F0, .int (some 5) (some 6) F0] 2 (some 2) F0) = true := by decide
+
+def exDA : Spec := .dict (some [.mk (.const "x") (.int none none ⟨true, .int 0, false⟩), .mk (.const "y") (.list (.str none F0) 0 none F0)]) ⟨false, .missing, false⟩
+def exDB : Spec := .dict (some [.mk (.const "y") (.list (.str none F0) 1 (some 2) F0), .mk (.const "x") (.int (some 1) none F0)]) ⟨false, .missing, false⟩
+example : CompatOk exDA exDB = true ∧ isCompatible env0 exDA exDB = true := by decide
+example : accepts env0 exDB (.dict [("x", .int 3), ("y", .list [.str "a"])]) = true := by decide
+example : accepts env0 exDA (.dict [("x", .int 3), ("y", .list [.str "a"])]) = true :=
+  C04_compat_partial env0 env0_trans exDA exDB (by decide) (by decide) _ (by decide)
 
 def exChild : Spec := .list (.tuple [.float (some ⟨3, 2⟩) none F0] 0 (some 4) F0) 2 none ⟨false, .list [], false⟩
 def exBase : Spec := .list (.tuple [.float (some ⟨1, 1⟩) (some ⟨9, 0⟩) ⟨true, .missing, false⟩] 1 none F0) 1 (some 3) ⟨true, .missing, false⟩
